@@ -1042,8 +1042,18 @@ fn apply_inner<P: PT, C: Coll<P>>(c: &mut C, ev: &Value, ctx: &Ctx) -> Option<Ou
                 match a {
                     "ViewSet" => {
                         let x = ev["v"].as_i64().unwrap() as i32;
+                        // C18: an entry created by set() on a value-less node keeps the prefix that node had
+                        // (what the view reported as its prefix() before the call), an occupied node its stored one
+                        let before = ctx.enc(v.prefix());
                         match v.set(x) {
-                            Ok(old) => json!([{"ok": 1, "old": opt(old)}]),
+                            Ok(old) => {
+                                let after = ctx.enc(v.prefix());
+                                if after != before {
+                                    json!([{"ok": 1, "old": opt(old), "kept": 0, "before": before, "after": after}])
+                                } else {
+                                    json!([{"ok": 1, "old": opt(old)}])
+                                }
+                            }
                             Err(back) => json!([{"ok": 0, "old": [back]}]),
                         }
                     }
